@@ -1,8 +1,12 @@
 /-
-C13 — helper lemmas about `Model/Sign.lean`: the normaliser against its specification, the dispatch table, totality.
+C13 — helper lemmas about `Model/Sign.lean`: the normaliser against its specification, the dispatch table, totality; and (second
+wave, at the end) about the executable specifications `Crypto/Ed25519.lean` and `Crypto/Ecdsa.lean`: encodings, the canonical-S
+rule, signature widths, low-S, the RFC 6979 nonce range, and correctness of the ECDSA equations over an abstract group.
 Core Lean only.
 -/
 import AskarModel.Model.Sign
+import AskarModel.Crypto.Ed25519
+import AskarModel.Crypto.Ecdsa
 
 namespace Askar.Sign
 
@@ -699,13 +703,331 @@ def acceptAll : SigScheme where
 
 def acceptAllSchemes : Schemes := { ed25519 := acceptAll, k256 := acceptAll, p256 := acceptAll, p384 := acceptAll }
 
-/- OPEN (second wave of DESIGN.md section 4 / C13, not attempted in this slice; nothing in Props depends on them):
-   * ecdsa_correct: over a model of a prime-order group with scalar field Z/n, the ECDSA verification equation accepts
-     (r, s) = (x(kG) mod n, k⁻¹(z + r d) mod n) under Q = dG.  Needs field inverses mod n and group-law lemmas (Mathlib-free: long).
-   * ed25519_S_flip_rejected: with the same R, A, M a signature with S' ≠ S (both canonical, < L) is rejected by the strict
-     verifier.  Needs the Edwards group model.
-   * sign_matches_rfc: an executable Lean specification of Ed25519 (RFC 8032) and ECDSA + RFC 6979 to serve as the oracle for
-     random keys; the harness currently uses the RFCs' own vectors (bit for bit) plus determinism and own-verification instead.
-   The laws assumed of `SigScheme` (`verify_sign`, `sign_len`, `pub_valid`) are exactly what these would discharge. -/
+/-! ## second wave: the executable specifications of Ed25519 and ECDSA -/
+
+end Askar.Sign
+
+namespace Askar.Crypto.Ed25519
+
+theorem natLE_length : ∀ len n, (natLE len n).length = len
+  | 0, _ => rfl
+  | len + 1, n => by simp [natLE, natLE_length len]
+
+theorem leNat_natLE : ∀ len n, leNat (natLE len n) = n % 256 ^ len
+  | 0, n => by simp [natLE, leNat, Nat.mod_one]
+  | len + 1, n => by
+    simp only [natLE, leNat, leNat_natLE len]
+    have h : (UInt8.ofNat (n % 256)).toNat = n % 256 := by simp
+    rw [h, Nat.pow_succ, Nat.mul_comm (256 ^ len) 256, Nat.mod_mul]
+
+theorem L_lt : L < 256 ^ 32 := by decide
+theorem twoL_lt : L + L < 256 ^ 32 := by decide
+theorem L_pos : 0 < L := by decide
+
+theorem encode_length (P : Point) : (encode P).length = 32 := by
+  unfold encode
+  simp [natLE_length]
+
+/-- the two halves of a signature, in closed form -/
+def sigR (sk msg : Bytes) : Bytes :=
+  encode (Point.mul (leNat (sha512 ((expand sk).2 ++ msg)) % L) B)
+
+def sigSOf (sk msg : Bytes) : Nat :=
+  sigS (leNat (sha512 ((expand sk).2 ++ msg)) % L)
+       (leNat (sha512 (sigR sk msg ++ publicKey sk ++ msg)) % L) (expand sk).1
+
+theorem sign_eq (sk msg : Bytes) : sign sk msg = sigR sk msg ++ natLE 32 (sigSOf sk msg) := by
+  rfl
+
+theorem sigR_length (sk msg : Bytes) : (sigR sk msg).length = 32 := encode_length _
+
+theorem sigSOf_lt (sk msg : Bytes) : sigSOf sk msg < L := by
+  unfold sigSOf sigS
+  exact Nat.mod_lt _ L_pos
+
+theorem sign_length (sk msg : Bytes) : (sign sk msg).length = 64 := by
+  rw [sign_eq]; simp [sigR_length, natLE_length]
+
+theorem sign_drop (sk msg : Bytes) : (sign sk msg).drop 32 = natLE 32 (sigSOf sk msg) := by
+  rw [sign_eq]
+  have := sigR_length sk msg
+  simp [this]
+
+theorem sign_take (sk msg : Bytes) : (sign sk msg).take 32 = sigR sk msg := by
+  rw [sign_eq]
+  have := sigR_length sk msg
+  simp [this]
+
+theorem sign_S (sk msg : Bytes) : leNat ((sign sk msg).drop 32) = sigSOf sk msg := by
+  rw [sign_drop, leNat_natLE]
+  exact Nat.mod_eq_of_lt (Nat.lt_trans (sigSOf_lt sk msg) L_lt)
+
+theorem noncanonical_S_rejected (pk msg sig : Bytes) (h : L ≤ leNat (sig.drop 32)) :
+    verifyStrict pk msg sig = false ∧ verifyLoose pk msg sig = false ∧ verifyRfc pk msg sig = false := by
+  refine ⟨?_, ?_, ?_⟩
+  · unfold verifyStrict
+    by_cases hl : sig.length ≠ 64
+    · simp [hl]
+    · simp [hl, h]
+  · unfold verifyLoose
+    by_cases hl : sig.length ≠ 64
+    · simp [hl]
+    · simp [hl, h]
+  · unfold verifyRfc
+    by_cases hl : sig.length ≠ 64
+    · simp [hl]
+    · simp [hl, h]
+
+/-- the signature with S replaced by S + L -/
+def plusL (sig : Bytes) : Bytes := sig.take 32 ++ natLE 32 (leNat (sig.drop 32) + L)
+
+theorem plusL_S (sk msg : Bytes) : leNat ((plusL (sign sk msg)).drop 32) = sigSOf sk msg + L := by
+  unfold plusL
+  rw [sign_take, sign_S]
+  have := sigR_length sk msg
+  simp only [List.drop_append, this, Nat.sub_self, List.drop_zero]
+  rw [List.drop_of_length_le (by omega), List.nil_append, leNat_natLE]
+  apply Nat.mod_eq_of_lt
+  have := sigSOf_lt sk msg
+  have := twoL_lt
+  omega
+
+end Askar.Crypto.Ed25519
+
+namespace Askar.Crypto.Ecdsa
+open Askar Askar.Ec
+
+theorem i2osp_length : ∀ len n, (i2osp len n).length = len
+  | 0, _ => rfl
+  | len + 1, n => by simp [i2osp, i2osp_length len]
+
+theorem foldl_i2osp : ∀ len n acc,
+    (i2osp len n).foldl (fun acc x => acc * 256 + x.toNat) acc = acc * 256 ^ len + n % 256 ^ len
+  | 0, n, acc => by simp [i2osp, Nat.mod_one]
+  | len + 1, n, acc => by
+    simp only [i2osp, List.foldl_cons, foldl_i2osp len]
+    have h : (UInt8.ofNat (n / 256 ^ len % 256)).toNat = n / 256 ^ len % 256 := by simp
+    rw [h, Nat.pow_succ, Nat.mod_mul, Nat.add_mul, Nat.mul_assoc, Nat.mul_comm 256 (256 ^ len), Nat.mul_comm (n / 256 ^ len % 256)]
+    omega
+
+theorem os2ip_i2osp (len n : Nat) : os2ip (i2osp len n) = n % 256 ^ len := by
+  unfold os2ip
+  rw [foldl_i2osp]; simp
+
+/-! the nonce -/
+
+theorem nonceLoop_range (P : Params) : ∀ fuel K V k, nonceLoop P fuel K V = some k → 1 ≤ k ∧ k < P.q
+  | 0, _, _, _, h => by simp [nonceLoop] at h
+  | fuel + 1, K, V, k, h => by
+    simp only [nonceLoop] at h
+    split at h
+    · rename_i hk
+      cases h
+      exact hk
+    · exact nonceLoop_range P fuel _ _ k h
+
+theorem generateK_range (P : Params) (reduce : Bool) (x : Nat) (h1 : Bytes) (k : Nat)
+    (h : generateK P reduce x h1 = some k) : 1 ≤ k ∧ k < P.q := by
+  unfold generateK at h
+  exact nonceLoop_range P _ _ _ k h
+
+/-! signatures -/
+
+theorem signRS_lowS {Pt : Type} (O : Ops Pt) (d k z r s : Nat) (h : signRS O true d k z = some (r, s)) : s ≤ O.n / 2 := by
+  unfold signRS at h
+  split at h
+  · cases h
+  · dsimp only at h
+    split at h
+    · cases h
+    · simp only [Option.some.injEq, Prod.mk.injEq, true_and] at h
+      obtain ⟨_, hs⟩ := h
+      split at hs <;> omega
+
+theorem signRS_range {Pt : Type} (O : Ops Pt) (hn : 0 < O.n) (lowS : Bool) (d k z r s : Nat) (h : signRS O lowS d k z = some (r, s)) :
+    1 ≤ r ∧ 1 ≤ s ∧ s < O.n := by
+  unfold signRS at h
+  split at h
+  · cases h
+  · dsimp only at h
+    split at h
+    · cases h
+    · rename_i r' _ hz
+      simp only [Option.some.injEq, Prod.mk.injEq] at h
+      obtain ⟨hr, hs⟩ := h
+      have hlt : O.inv k * (z + r' * d) % O.n < O.n := Nat.mod_lt _ hn
+      subst hr
+      split at hs <;> omega
+
+theorem sign_width (S : Suite) (reduce : Bool) (sk msg sig : Bytes) (h : sign S reduce sk msg = some sig) :
+    sig.length = 2 * S.curve.len := by
+  unfold sign at h
+  cases hrs : signRSBytes S reduce sk msg with
+  | none => rw [hrs] at h; cases h
+  | some rs =>
+    rw [hrs] at h
+    cases h
+    simp [i2osp_length]; omega
+
+theorem mod_add_congr {n a a' b b' : Nat} (h1 : a % n = a' % n) (h2 : b % n = b' % n) : (a + b) % n = (a' + b') % n := by
+  rw [Nat.add_mod, h1, h2, ← Nat.add_mod]
+
+theorem mod_mul_congr {n a a' b b' : Nat} (h1 : a % n = a' % n) (h2 : b % n = b' % n) : (a * b) % n = (a' * b') % n := by
+  rw [Nat.mul_mod, h1, h2, ← Nat.mul_mod]
+
+/-- k·s ≡ z + r·d when s ≡ k⁻¹(z + r·d) -/
+theorem k_mul_s {Pt : Type} {O : Ops Pt} (hL : Laws O) {k e : Nat} (hk : k % O.n ≠ 0) :
+    (k * (O.inv k * e % O.n)) % O.n = e % O.n := by
+  have h1 : (k * (O.inv k * e % O.n)) % O.n = (k * (O.inv k * e)) % O.n := mod_mul_congr rfl (Nat.mod_mod _ _)
+  have h2 : k * (O.inv k * e) = (O.inv k * k) * e := by
+    rw [← Nat.mul_assoc, Nat.mul_comm k (O.inv k)]
+  have h3 : ((O.inv k * k) * e) % O.n = (1 * e) % O.n :=
+    mod_mul_congr (by rw [hL.inv_mul k hk, Nat.mod_eq_of_lt hL.n_pos]) rfl
+  rw [h1, h2, h3, Nat.one_mul]
+
+/-- u1 + u2·d ≡ w·(z + r·d) -/
+theorem u_sum {n z r d w : Nat} : (z * w % n + r * w % n * d) % n = (w * (z + r * d)) % n := by
+  have h1 : (z * w % n + r * w % n * d) % n = (z * w + r * w * d) % n :=
+    mod_add_congr (Nat.mod_mod _ _) (mod_mul_congr (Nat.mod_mod _ _) rfl)
+  rw [h1]
+  congr 1
+  rw [Nat.mul_add, Nat.mul_comm z w, Nat.mul_comm r w, Nat.mul_assoc]
+
+/-- w·e ≡ k when k·s ≡ e and w·s ≡ 1 -/
+theorem w_mul_e {n k s e w : Nat} (hn : 1 < n) (hks : (k * s) % n = e % n) (hws : (w * s) % n = 1) : (w * e) % n = k % n := by
+  have h1 : (w * e) % n = (w * (k * s)) % n := mod_mul_congr rfl hks.symm
+  have h2 : w * (k * s) = k * (w * s) := by rw [Nat.mul_left_comm]
+  have h3 : (k * (w * s)) % n = (k * 1) % n := mod_mul_congr rfl (by rw [hws, Nat.mod_eq_of_lt hn])
+  rw [h1, h2, h3, Nat.mul_one]
+
+/-- a ≡ −k when a + k ≡ 0 -/
+theorem neg_of_add {n a k : Nat} (hn : 0 < n) (h : (a + k) % n = 0) : a % n = (n - k % n) % n := by
+  have ha : a % n < n := Nat.mod_lt _ hn
+  have hk : k % n < n := Nat.mod_lt _ hn
+  have h' : (a % n + k % n) % n = 0 := by rw [← Nat.add_mod]; exact h
+  by_cases hlt : a % n + k % n < n
+  · rw [Nat.mod_eq_of_lt hlt] at h'
+    have h0 : a % n = 0 := by omega
+    have hk0 : k % n = 0 := by omega
+    rw [h0, hk0, Nat.sub_zero, Nat.mod_self]
+  · have hge : n ≤ a % n + k % n := by omega
+    rw [Nat.mod_eq_sub_mod hge, Nat.mod_eq_of_lt (by omega)] at h'
+    have h1 : a % n = n - k % n := by omega
+    have h2 : n - k % n < n := by omega
+    rw [Nat.mod_eq_of_lt h2]; exact h1
+
+/-- w·e ≡ −k when k·s0 ≡ e, s0 + s = n and w·s ≡ 1 -/
+theorem w_mul_e_neg {n k s0 s e w : Nat} (hn : 1 < n) (hks : (k * s0) % n = e % n) (hsum : s0 + s = n) (hws : (w * s) % n = 1) :
+    (w * e) % n = (n - k % n) % n := by
+  apply neg_of_add (by omega)
+  have h1 : (w * e + k) % n = (w * (k * s0) + k * (w * s)) % n :=
+    mod_add_congr (mod_mul_congr rfl hks.symm) (by
+      have : (k * (w * s)) % n = (k * 1) % n := mod_mul_congr rfl (by rw [hws, Nat.mod_eq_of_lt hn])
+      rw [this, Nat.mul_one])
+  have h2 : w * (k * s0) + k * (w * s) = (k * w) * n := by
+    rw [← hsum, Nat.mul_add, Nat.mul_left_comm w k s0, Nat.mul_assoc, Nat.mul_assoc]
+  rw [h1, h2, Nat.mul_mod_left]
+
+theorem ecdsa_correct {Pt : Type} {O : Ops Pt} (hL : Laws O) (lowS : Bool) {d k z r s : Nat} (hk : k % O.n ≠ 0)
+    (h : signRS O lowS d k z = some (r, s)) : verifyRS O lowS (O.mulBase d) z r s = true := by
+  have hn := hL.n_pos
+  unfold signRS at h
+  split at h
+  · cases h
+  · rename_i r' hx
+    dsimp only at h
+    split at h
+    · cases h
+    · rename_i hz
+      simp only [Option.some.injEq, Prod.mk.injEq] at h
+      obtain ⟨hr, hs⟩ := h
+      subst hr
+      have hrlt : r' < O.n := hL.x_lt _ _ hx
+      have hs0lt : O.inv k * (z + r' * d) % O.n < O.n := Nat.mod_lt _ (by omega)
+      have hks := k_mul_s hL (e := z + r' * d) hk
+      -- the range checks of the verifier pass
+      have hrange : ¬ (r' = 0 ∨ r' ≥ O.n ∨ s = 0 ∨ s ≥ O.n) := by
+        split at hs <;> omega
+      have hhigh : ¬ (lowS = true ∧ s > O.n / 2) := by
+        split at hs
+        · omega
+        · rename_i hc; rw [← hs]; exact hc
+      unfold verifyRS
+      rw [if_neg hrange, if_neg hhigh]
+      dsimp only
+      rw [hL.lincomb_base, ← hL.mulBase_mod, u_sum]
+      have hsmod : s % O.n ≠ 0 := by rw [Nat.mod_eq_of_lt (by omega)]; omega
+      have hws := hL.inv_mul s hsmod
+      split at hs
+      · -- s = n − s0: the verifier recomputes −k·G, which has the same x-coordinate
+        rw [w_mul_e_neg hn hks (by omega) hws, hL.mulBase_mod, hL.neg_x, hx]
+        simp
+      · subst hs
+        rw [w_mul_e hn hks hws, hL.mulBase_mod, hx]
+        simp
+
+/-! a group in which the laws hold (non-vacuity of `Laws`): Z/7 written additively, generator 1, "x-coordinate" of a ≠ 0 the smaller of a, 7 − a -/
+
+def toyX (a : Nat) : Option Nat := if a % 7 = 0 then none else some (if a % 7 ≤ 3 then a % 7 else 7 - a % 7)
+
+def toyOps : Ops Nat where
+  n := 7
+  mulBase := fun k => k % 7
+  lincomb := fun u1 u2 q => (u1 + u2 * q) % 7
+  xModN := toyX
+  inv := fun a => (a % 7) ^ 5 % 7
+
+theorem toy_inv : ∀ b : Fin 7, b.val ≠ 0 → ((b.val % 7) ^ 5 % 7 % 7 * (b.val % 7)) % 7 = 1 := by decide
+theorem toy_neg : ∀ b : Fin 7, toyX ((7 - b.val % 7 % 7) % 7) = toyX (b.val % 7) := by decide
+
+theorem toy_laws : Laws toyOps where
+  n_pos := by decide
+  inv_mul := by
+    intro a ha
+    show ((a % 7) ^ 5 % 7 * a) % 7 = 1
+    rw [Nat.mul_mod]
+    have ha' : a % 7 ≠ 0 := ha
+    have h := toy_inv ⟨a % 7, Nat.mod_lt _ (by decide)⟩ (by simpa using ha')
+    simpa using h
+  mulBase_mod := by intro k; exact Nat.mod_mod _ _
+  lincomb_base := by
+    intro u1 u2 d
+    show (u1 + u2 * (d % 7)) % 7 = (u1 + u2 * d) % 7
+    exact mod_add_congr rfl (mod_mul_congr rfl (Nat.mod_mod _ _))
+  neg_x := by
+    intro k
+    show toyX ((7 - k % 7) % 7) = toyX (k % 7)
+    have h := toy_neg ⟨k % 7, Nat.mod_lt _ (by decide)⟩
+    simpa using h
+  x_lt := by
+    intro pt x h
+    show x < 7
+    unfold toyOps toyX at h
+    simp only at h
+    split at h
+    · cases h
+    · cases h
+      split <;> omega
+
+end Askar.Crypto.Ecdsa
+
+namespace Askar.Sign
+
+/- OPEN (second wave of DESIGN.md section 4 / C13).  Done: `sign_matches_rfc` became the executable specifications
+   `Crypto/Ed25519.lean` / `Crypto/Ecdsa.lean` (validated on the RFC vectors, compared with the library byte for byte on every
+   generated operation); `ecdsa_correct` is proved over `Ecdsa.Ops` under `Ecdsa.Laws` (both the plain and the low-S form).
+   Still open, nothing in Props depends on them:
+   * ecdsa_laws_exec: `Ecdsa.Laws (Ecdsa.ops c)` for c = p256, p384, k256 — that the Jacobian formulas of `Ec.lean` realise a group of
+     prime order n (associativity of the chord-tangent law, the exceptional cases of `addAffine`, primality of n for `invMod` by
+     Fermat, `Nat.log2`-free bounds on the fuel 800).  Needs an elliptic-curve group-law development (Mathlib-free: long).
+     `ecdsa_correct` is stated for every `Ops` with `Laws`; `toy_laws` shows the hypotheses are satisfiable.
+   * ed25519_S_flip_rejected, strong form: with the same R, A, M a signature with CANONICAL S' ≠ S (both < L) is rejected by the strict
+     verifier.  Needs: B has order exactly L in the Edwards group (so [S']B ≠ [S]B) and injectivity of `encode` on curve points.
+     Proved instead (`noncanonical_S_rejected`, `plusL_S`): every S' ≥ L — in particular S' = S + L, the only other representative
+     of S mod L that fits in 32 octets together with S + 2L.. — is rejected by the canonical-S check of all three verifiers.
+   * ed25519_correct: verifyStrict (publicKey sk) m (sign sk m) = true.  Needs the Edwards group law ([S]B = R + [k]A), that
+     `encode`/`decodeLenient` are mutually inverse on curve points, and that [a]B is not of small order.
+   * nonce fuel: `generateK` examines at most `nonceFuel` = 100 candidates and is `none` beyond; that it is never `none` is a statement
+     about HMAC-SHA-2 outputs (each candidate is out of range with probability < 2⁻³²), not provable. -/
 
 end Askar.Sign
